@@ -542,6 +542,15 @@ func runWorldModeX(cfg *runCfg, name string, kf1 bool, live bool) error {
 			rep.count("world:directed-missing-block-script")
 		} else if nilOK {
 			w.run()
+		} else if live && i == 0 {
+			w = directedWorld(r, rep, cfg.seed*100000, 3)
+			w.lockedThenReproposedPrefix()
+			rep.count("world:directed-locked-then-reproposed-prefix")
+			if why, ok := w.stabilise(); ok {
+				rep.count("live:stabilised-worlds")
+			} else {
+				rep.count("live:skipped: " + why)
+			}
 		} else if live {
 			w.run()
 			if why, ok := w.stabilise(); ok {
@@ -581,6 +590,14 @@ func runWorldModeX(cfg *runCfg, name string, kf1 bool, live bool) error {
 			w = directedWorld(r, rep, cfg.seed*100000+6, 3)
 			w.siblingInstanceProofScript()
 			rep.count("world:directed-sibling-instance-proof-script")
+		} else if !kf1 && i == 7 {
+			w = directedWorld(r, rep, cfg.seed*100000+7)
+			w.staleNewViewScript()
+			rep.count("world:directed-stale-new-view-script")
+		} else if !kf1 && i == 8 {
+			w = directedWorld(r, rep, cfg.seed*100000+8)
+			w.commitBeforePrepareScript()
+			rep.count("world:directed-commit-before-prepare-script")
 		} else {
 			w.run()
 		}
